@@ -196,7 +196,9 @@ Definition norm_globals (defaults globals : list (text * value)) : list (text * 
                   end) acc)
             defaults [].
 
-(* the state of the target story [t] after loading the save of [s] *)
+(* the state of the target story [t] after loading the save of [s].  What the
+   loader does not touch stays as it is in [t]: did_safe_exit, errors, warnings,
+   the patch, the defaults — and the diverted pointer when the save has none. *)
 Definition norm_sstate (t s : sstate) : sstate :=
   let fl := flows_as_saved s in
   let cur := fl_name (ss_flow s) in
@@ -204,13 +206,17 @@ Definition norm_sstate (t s : sstate) : sstate :=
     if Nat.eqb (length fl) 1 then
       (match fl with (_, f) :: _ => f | [] => ss_flow t end, None)
     else
-      (match assoc cur fl with Some f => f | None => ss_flow t end, Some (assoc_remove cur fl)) in
+      match assoc cur fl with
+      | Some f => (f, Some (assoc_remove cur fl))
+      | None => (ss_flow t, Some fl)
+      end in
   mkSstate flow' (ss_safe_exit t)
            (mkVarstate (norm_globals (vs_defaults (ss_vars t)) (vs_globals (ss_vars s)))
                        (vs_defaults (ss_vars t)) (vs_batch (ss_vars t)) (vs_changed (ss_vars t))
                        (vs_patch (ss_vars t)))
            (map norm_obj (ss_eval s)) (ss_errors t) (ss_warnings t) (ss_patch t) named'
-           (ss_diverted s) (ss_visits s) (ss_turns s) (ss_turn s) (ss_seed s) (ss_prev_random s).
+           (if ptr_is_null (ss_diverted s) then ss_diverted t else ss_diverted s)
+           (ss_visits s) (ss_turns s) (ss_turn s) (ss_seed s) (ss_prev_random s).
 
 Definition norm_save (t w : world) : world :=
   t <| w_state := norm_sstate (w_state t) (w_state w) |>.
